@@ -361,6 +361,14 @@ class Emit:
                 extra = " it's"
             elif r < 0.16:
                 extra = " café ☃"
+            elif r < 0.22:
+                extra = " Tom & <b>Jerry</b>"
+            elif r < 0.25:
+                extra = " e\u0301\u0303 n\u0303 \u200d"
+        elif kind == "filter" and r < 0.2:
+            extra = self.rng.choice([" Tom & <b>Jerry</b>", " café ☃", " a\u0301 > b"])
+        elif kind == "tag" and r < 0.25:
+            extra = self.rng.choice([" Tom & <b>Jerry</b>", " it's \"q\"", " e\u0301\u0303 ☃", " a < b > c"])
         s = {
             "n": self.serial, "tpl": self.tpl, "kind": kind, "filter": None,
             "construct": construct, "singular": f"m{self.serial}@{self.tpl} one{extra}",
@@ -373,11 +381,21 @@ class Emit:
         self.sites.append(s)
         return s
 
+    # literal decorations: HTML-special characters, quotes, percent, non-ASCII, combining
+    DECOR = ["", "", "", " & Jerry", " <b>x</b>", " it's", ' "q"', " caf\u00e9 \u2603", " e\u0301\u0303", " a > b"]
+
+    def _decor(self, s: dict[str, Any], salt: int, percent: bool) -> str:
+        pool = [d for d in self.DECOR if not (self.single_only and ("'" in d or '"' in d))]
+        if percent:
+            pool = [*pool, " 100%", " 5% & more"]
+        return pool[(s["n"] * 7 + salt + len(s["tpl"])) % len(pool)]
+
     def plural_id(self, s: dict[str, Any]) -> str:
-        return f"m{s['n']}@{s['tpl']} many"
+        # (a '%' in a message text is interpolated by the filters: only contexts get one)
+        return f"m{s['n']}@{s['tpl']} many" + self._decor(s, 3, False)
 
     def ctx_id(self, s: dict[str, Any]) -> str:
-        return f"c{s['n']}@{s['tpl']}"
+        return f"c{s['n']}@{s['tpl']}" + self._decor(s, 5, True)
 
     # -- the SAME message used several times (different lines, different routes) ----------
     REUSE_COUNTS = ["2", "5", "1", "0", "n2", "'3'"]
@@ -1339,7 +1357,7 @@ def build_case(rng: random.Random, size: int, rare: bool = True) -> dict[str, An
     return {
         "templates": templates, "root": "tA", "sites": sites, "comments": comments,
         "datas": datas, "modes": ["sync", "sync", "async"],
-        "auto_escape": rng.random() < 0.15,
+        "auto_escape": rng.random() < 0.3,
         "aliases": alias, "kwmode": kwmode,
     }
 
@@ -2076,6 +2094,11 @@ class Checker:
             )
             return
         ctx.count("lookups_matched")
+        if case.get("auto_escape"):
+            ctx.count("lookups_matched_auto_escape")
+            if r_ctx and site["ctx_mode"] == "literal" and any(ch in (mctx or "") for ch in "&<>'\""):
+                ctx.count("lookups_matched_auto_escape_literal_context_with_special_chars")
+                ctx.seen("auto_escape_special_ctx_kinds", kindname)
         if "special-names-in-scope" in site["flags"] or any(k in data for k in ("context", "count", "plural")):
             ctx.count("lookups_matched_special_names_in_scope")
             if site["kind"] == "tag" and site["ctx_mode"] == "none":
@@ -2293,6 +2316,9 @@ def floors(tier: str) -> dict[str, int]:
         "set:comment_kinds_attached": 6,
         "set:runtime_funcs": 4,
         "enum_cases": 2_330,
+        "enum_cases_auto_escape": 1_100,
+        "lookups_matched_auto_escape": 30_000 * k,
+        "lookups_matched_auto_escape_literal_context_with_special_chars": 1_000 * k,
         "babel_extract_from_file_calls": 1_000 * k,
         "set:catalog_keyword_styles": 7,
         "set:catalog_style_x_family": 26,
@@ -2342,6 +2368,10 @@ def run_shard(spec: dict[str, Any], ctx: Ctx) -> None:
                 continue
             ck.check_case(case)
             ctx.count("enum_cases")
+            if j % 2 == 0:
+                # a share of every family also under Environment(auto_escape=True)
+                ck.check_case({**case, "auto_escape": True, "catalog": False})
+                ctx.count("enum_cases_auto_escape")
         ctx.sample({"kind": "enum", "root": case["templates"]["tA"]})
     elif kind == "edge":
         _edge(ck, ctx)
